@@ -61,6 +61,25 @@ CHECKS = {
         "ready-list capacity >= pipes as the code requires.",
    technique="TLA+ spec (Rpq.tla) + TLC incl. liveness; controlled-scheduler replay of TLC schedules on the real queue; TLC trace validation of recorded real schedules",
    design_ref="DESIGN.md 2.1 (B2), 4.4, 5 (C08)"),
+ "C18": dict(
+   text="TLC checks SecureChannel.tla exhaustively (records with per-direction counters, heartbeats as records, size classes "
+        "around the 64 KiB record limit, one or two network mutations: flip/drop/dup/swap/cut): NoWrongDelivery, SelfDecodable, "
+        "TamperCloses. Simulated behaviours are replayed on two real engines after real CURVE and Noise_XX handshakes; the "
+        "mutations are applied to the real ciphertext; plaintext markers are searched in everything sent; two sessions with the "
+        "same static keys must not repeat a record.",
+   note="Cryptographic strength of dryoc / snow is trusted. Mutations are those of the model (sampled positions). Engine level; "
+        "the session's egress ordering for sealed records is exercised by the socket-level heartbeat scenario of C19.",
+   technique="TLA+ spec (SecureChannel.tla) + TLC; TLC behaviours incl. ciphertext mutations replayed on two real engines (CURVE, Noise_XX)",
+   design_ref="DESIGN.md 5 (C18)"),
+ "C19": dict(
+   text="TLC checks Heartbeat.tla exhaustively for (ivl,timeout) in {(1,1),(1,2),(2,1),(2,3)} and a ZMTP/2.0 session over a bounded "
+        "clock: PingWindow, PingAfterIdle, NotOverdue, ClosedOnlyWhenDead, DeadDetected, NoHbOnV2, WholeChunks, DataFifo, PongEcho. "
+        "Simulated timelines are replayed on a real engine (on_tick on the model clock) and the real EgressBuffer with partial "
+        "writes; PING contexts of 0/1/16/17 bytes; the bytes leaving the buffer are parsed back into whole frames.",
+   note="The tokio interval timer is assumed to tick every HEARTBEAT_IVL; socket-level timing is checked with slack only. "
+        "io_uring backend: no heartbeat clock (known finding, see C20).",
+   technique="TLA+ spec (Heartbeat.tla) + TLC; TLC timelines replayed on the real engine and egress buffer",
+   design_ref="DESIGN.md 5 (C19)"),
 }
 
 NA_DEFAULT = "check not built yet (construction in progress; see DESIGN.md section 10)"
